@@ -88,6 +88,7 @@ def run(ctx):
     ctx.assume('z3 soundness; spec/netsem.py is the reading of the LogicNet docstring')
     return ctx.finish('other', './check C03', ['z3', 'pyvc', 'spec/netsem.py', 'elab/n2smt.py'],
                       'P: _one_bit_add, _add_helper (induction on width), _basic_add, _basic_sub, _basic_lt '
-                      '(induction), _basic_gt compute the documented value of + - < > at the documented width '
+                      '(induction), _basic_gt, _basic_eq, or_all_bits, tree_reduce (induction on length) compute '
+                      'the documented value of + - < > = at the documented width '
                       'for all widths and values; bounded stand-in: real synthesize() run per design; '
                       'equivalence decided by SMT for all inputs/states of each instance')
